@@ -46,8 +46,12 @@ def trim (s : List Char) : List Char := trimEnd (trimStart s)
 /-- `str::len`: UTF-8 byte length. -/
 def byteLen (s : List Char) : Nat := (s.map Char.utf8Size).sum
 
-/-- `unicode_str_width` for characters of width 1. -/
-abbrev strWidth (s : List Char) : Nat := s.length
+/-- `unicode_str_width` = `UnicodeWidthStr::width` (unicode-width 0.1.14, `str_width` / `width_in_str`) for
+strings of characters up to U+00A0, none of which is wide: `\n` has width 0, a `\r` directly before a
+`\n` has width 0, every other character (tab and the other control characters included) has width 1. -/
+def strWidth : List Char → Nat
+  | [] => 0
+  | c :: cs => (if c = '\n' || (c = '\r' && cs.head? = some '\n') then 0 else 1) + strWidth cs
 
 /-- `s.contains('\n')` -/
 def hasNewline (s : List Char) : Bool := s.contains '\n'
